@@ -629,6 +629,17 @@ class Interp:
             if base in ('BitOr', 'BitXor'):
                 if x.is_const() and y.is_const():
                     return vint((x.const | y.const) if base == 'BitOr' else (x.const ^ y.const))
+                if base == 'BitOr' and lo >= 0:
+                    # operands with disjoint possible-one bits: x | y == x + y
+                    for (cst, oth) in ((x, y), (y, x)):
+                        if cst.is_const() and cst.const >= 0:
+                            if cst.const == 0:
+                                return ('int', oth)
+                            lowbit = cst.const & -cst.const
+                            ohi = w.store.quick_bounds(oth)[1]
+                            olo = w.store.quick_bounds(oth)[0]
+                            if ohi is not None and olo is not None and olo >= 0 and ohi < lowbit:
+                                return ('int', cst + oth)
                 res = self.fresh_int(w, aty, base.lower(), defn=(base.lower(), x, y))
                 if base == 'BitOr' and lo >= 0:
                     # x|y >= max(x,y) and <= x+y
